@@ -74,6 +74,9 @@ def refkey(num: dict) -> dict:
     return ref.rsa_key(num["n"], num["e"]) if num["type"] == "rsa" else ref.ecc_key(num["x"], num["y"], num["size"])
 
 
+_ROTATE = [0]
+
+
 class KM:
     """One key: reference numbers + every input form (files from the pool, or written to the work dir)."""
 
@@ -108,8 +111,9 @@ class KM:
     def path(self, stem: str) -> str:
         return self._raw_file(stem) if stem in ("raw", "refraw") else self.files[stem]
 
-    def get(self, form: str):
-        """The value handed to SPSDK for this form (objects are created fresh on every call)."""
+    def get(self, form: str, stable: bool = False):
+        """The value handed to SPSDK for this form (objects are created fresh on every call).  ``stable``: never a rotating
+        slot (for values that are used later, e.g. by a child interpreter)."""
         stem, how = form.split(":")
         if stem == "obj":
             from spsdk.crypto.certificate import Certificate
@@ -126,6 +130,17 @@ class KM:
             raise ValueError(form)
         p = self.path(stem)
         if how == "path":
+            # every third path is a ROTATING slot: one file name per form that holds another key each time it is used (key
+            # rotation, a script that rewrites k0.pem for every run); the RoT value is a function of what the file holds now
+            _ROTATE[0] += 0 if stable else 1
+            if not stable and _ROTATE[0] % 3 == 0:
+                import shutil as _sh
+
+                os.makedirs(self.workdir, exist_ok=True)
+                # (eight names per form, used in turn: the <= 4 positions of one call never share a file)
+                slot = os.path.join(self.workdir, f"rotating_slot{(_ROTATE[0] // 3) % 8}_" + stem.replace(".", "_") + os.path.splitext(p)[1])
+                _sh.copyfile(p, slot)
+                return slot
             return p
         if (stem,) not in self._cache:
             with open(p, "rb") as f:
@@ -1162,7 +1177,7 @@ def run_process(case, ctx) -> None:
             forms = [core.pick(rng, [f for f in cls if f.endswith(":path")]) for _ in kms]
         else:
             forms = [core.pick(rng, PATH_FORMS) for _ in kms]
-        jobs.append({"path": "rot", "family": fam, "keys": [k.get(f) for k, f in zip(kms, forms)]})
+        jobs.append({"path": "rot", "family": fam, "keys": [k.get(f, stable=True) for k, f in zip(kms, forms)]})
         metas.append({"rot_type": rot_type, "family": fam, "keys": [k.name for k in kms], "forms": forms})
         try:
             wants.append(expected(rot_type, kms, forms))
